@@ -17,7 +17,7 @@ Record tables := mkT {
 
 Inductive case :=
 | CLine (t : N) (v2 : bool) (serial : N) (wf : bool) (line : bytes) (s1 s2 s3 : step) (tb : tables)
-| CFile (v2 : bool) (serial pserial : N) (wf : bool) (file : list bytes)
+| CFile (lite : bool) (v2 : bool) (serial pserial : N) (wf : bool) (file : list bytes)
         (pre_err : bool) (pre : list bytes)
         (orig_err : bool) (orig : list (bytes * list bytes))
         (p_err : bool) (pdump : list (bytes * list bytes))
@@ -103,8 +103,10 @@ Definition model_ok (c : case) : bool :=
     (if serr s1 =? 0 then step_matches o v2 serial (stext s1) s2 else true) &&
     (* lines of the well-formed generator satisfy the guard of the theorems *)
     (if wf && modelled t then wf_lineb o serial line else true)
-  | CFile v2 serial pserial wf file pre_err pre orig_err orig p_err pdump acc tb =>
+  | CFile lite v2 serial pserial wf file pre_err pre orig_err orig p_err pdump acc tb =>
     let o := oracles_of tb in
+    (* lite cases (one map with more than 100 range points) carry only the dumps: no model run *)
+    if lite then true else
     lib_ok tb &&
     match all_some (map rp_of_kv acc) with
     | None => false
@@ -169,11 +171,16 @@ Definition spec_ok (c : case) : bool :=
     if guard then roundtrip_observed s1 s2 s3
     else (* outside the guard: no panic except on the empty line (decodeRtype) *)
       (match line with [] => true | _ => no_panic s1 end) && no_panic s2 && no_panic s3
-  | CFile v2 serial pserial wf file pre_err pre orig_err orig p_err pdump acc tb =>
+  | CFile lite v2 serial pserial wf file pre_err pre orig_err orig p_err pdump acc tb =>
     let o := oracles_of tb in
     let guard := forallb (wf_file_lineb o serial) file &&
                  ((pserial =? serial) || (pserial =? 0)) &&
                  match all_some (map rp_of_kv acc) with Some rps => forallb (rp_okb o) rps | None => false end in
+    if lite then
+      (* guard = the generator's claim (distinct subnets with 2-byte locations, one Z line without F12) *)
+      (if wf then negb pre_err && negb orig_err && negb p_err && dump_eqb orig pdump
+       else if orig_err then pre_err || p_err else true)
+    else
     if guard then negb pre_err && negb orig_err && negb p_err && dump_eqb orig pdump &&
                   (* SOA lines are written with the serial filled in when the preprocessor has one *)
                   ((pserial =? 0) ||
@@ -190,7 +197,7 @@ Definition model_out (c : case) :=
      | Ok r => (0, marshal o r, convert v2 false r, wf_recordb o r, finding_class o serial r)
      | Err e => (e, [], [], false, false)
      end, [] : list bytes)
-  | CFile v2 serial pserial wf file pre_err pre orig_err orig p_err pdump acc tb =>
+  | CFile lite v2 serial pserial wf file pre_err pre orig_err orig p_err pdump acc tb =>
     let o := oracles_of tb in
     match all_some (map rp_of_kv acc) with
     | None => ((99, [], [], false, false), [])
